@@ -46,6 +46,8 @@ inline uint64_t progress_hash()
   return h;
 }
 
+static uint64_t g_last_backend_hash = 0;
+
 inline bool backend_all_empty()
 {
   return g_world->worker->_backend_worker->_check_frontend_queues_and_cached_transit_events_empty();
@@ -88,6 +90,8 @@ inline void backend_body(Scenario const& sc)
     w.worker->poll_one();
     if (g_ctl->draining) break;
     uint64_t const h1 = progress_hash();
+    tl_actor->made_progress = (h1 != g_last_backend_hash);
+    g_last_backend_hash = h1;
     if (h0 == h1)
       wait_point(11); // idle poll: nothing the backend can do until somebody else acts (or time passes)
     else
@@ -125,6 +129,9 @@ extern "C" void quill_verif_yield(int p) noexcept
   using namespace opx;
   if (!tl_actor || !tl_actor->is_backend || !g_ctl || g_ctl->draining) return;
   if (!(g_ctl->enabled_hooks & (1u << p))) return;
+  uint64_t const h = progress_hash();
+  tl_actor->made_progress = (h != g_last_backend_hash);
+  g_last_backend_hash = h;
   actor_yield(p, AState::Ready);
 }
 
@@ -252,7 +259,9 @@ inline int run_child(Scenario const& sc, std::vector<int> const& prefix, std::ve
     bool cur_enabled = false;
     for (auto& a : C.actors)
     {
-      bool e = a->state == AState::Ready || (a->state == AState::Waiting && C.step > a->wait_stamp);
+      // a waiting actor is enabled again only after some actor has made progress since it started waiting
+      // (a futile re-check of another waiting actor does not count, otherwise two waiters would wake each other for ever)
+      bool e = a->state == AState::Ready || (a->state == AState::Waiting && C.progress_stamp > a->wait_stamp);
       if (!e) continue;
       if (a->id == cur)
         cur_enabled = (a->state == AState::Ready);
@@ -276,6 +285,7 @@ inline int run_child(Scenario const& sc, std::vector<int> const& prefix, std::ve
         // nobody can act: let virtual time pass (grace period, flush intervals) and give the backend another look
         C.vclock_ns += static_cast<uint64_t>(W.backend_options.log_timestamp_ordering_grace_period.count()) * 1000ull + 1000000ull;
         b->wait_stamp = 0;
+        if (C.progress_stamp == 0) C.progress_stamp = 1;
         ++time_jumps;
         continue;
       }
@@ -310,7 +320,12 @@ inline int run_child(Scenario const& sc, std::vector<int> const& prefix, std::ve
     }
     Actor* a = C.actors[static_cast<size_t>(en[static_cast<size_t>(c)])].get();
     run_actor(a);
-    if (!(a->is_backend && a->state == AState::Waiting)) time_jumps = 0;
+    bool const progressed = a->is_backend ? (a->made_progress || a->state == AState::Done) : (a->state != AState::Waiting);
+    if (progressed)
+    {
+      C.progress_stamp = C.step;
+      time_jumps = 0;
+    }
     cur = a->id;
   }
 
